@@ -98,6 +98,8 @@ Fixpoint diff_tree (showmeta : bool) (d : nat) (prefix : list N) (t1 t2 : tree) 
             (if isdir a && isdir b then
                if tree_eqb (nsub a) (nsub b) then []           (* collectDir: prints nothing *)
                else diff_tree showmeta d' p (nsub a) (nsub b)
+             else if isdir a then print_dir d' Minus p (nsub a)   (* dir replaced by a non-dir *)
+             else if isdir b then print_dir d' Plus p (nsub b)    (* non-dir replaced by a dir *)
              else [])
         | (Some a, None) =>
             let p := prefix ++ [nname a] in
